@@ -24,7 +24,7 @@ def fmt(n):
 ROWS = [
  ('C01', 'E1 + E4', '10 classes to N=6; 48 line×terminator symbols to 2 lines, 16 LF lines to 4 lines (each also without its last char); 11 592 lexer-mode witness strings; 60 documents with one token stretched to 255 … 65537 characters; every string through 5 readers: `from_str`, `from_str_relaxed`, `read`/`read_relaxed` over a cursor, over 1-byte reads (2- and 3-byte reads when not ASCII) and over a reader failing half-way',
   'N=8; 3 / 5 lines; 11 classes to N=7', 'witness strings get the full check; short-read / failing readers added after seed C01e'),
- ('C02', 'E1 + pumping + E4', '85 entry points (incl. serde `Deserialize`, `from_file` family via scratch files, chunked and failing readers); doc N=5, rel N=4, codec N=4 (17 classes incl. three characters with irregular case mappings); token/line sequences to 2–3; w^k (w ≤ 2, k ≤ 64); 20 kB lines; typed docs k ≤ 1 with 7 garbage + ≤ 6 near-valid values, and per field every string of ≤ 3 symbols over 14 delimiter characters; VCS grammar tier',
+ ('C02', 'E1 + pumping + E4', '86 entry points (incl. serde `Deserialize`, `from_file` family via scratch files, chunked and failing readers); doc N=5, rel N=4, codec N=4 (17 classes incl. three characters with irregular case mappings); token/line sequences to 2–3; w^k (w ≤ 2, k ≤ 64); 20 kB lines; typed docs k ≤ 1 with 7 garbage + ≤ 6 near-valid values, and per field every string of ≤ 3 symbols over 14 delimiter characters; VCS grammar tier',
   'N=6/5/5, sequences 3–4, w ≤ 3, k ≤ 512, 100 kB, typed docs k ≤ 2, delimiter strings over 20 characters, VCS tier to 7', 'lossy apt `Release` has no text entry point (reached through C16/C20); typed getters are outside the quantifier (§4.3); a process death is located and reported as a verdict (§2.6)'),
  ('C03', 'E2', '9 skeletons, k=3 on ≤ 2 fields else 2 (7 comment shapes, 13 first lines, 10 continuation lines, 5 colon spacings …); reject clause on k ≤ 1 × every line × 10 corruptions (4 junk lines inserted, the same 4 as unterminated last line, colon deleted, indentation removed); 184 field-name-character cases; 36 long-token documents (255 … 65537 characters) with their reading',
   'k=4 / 3', '—'),
